@@ -113,7 +113,7 @@ def classify_read_exception(ex):
   return "Internal:" + type(ex).__name__
 
 
-def read(fmt: str, data: bytes, reader_cfg=None):
+def read(fmt: str, data: bytes, reader_cfg=None, cb=lambda _: None):
   """Calls the reader the way ttconv.tt.convert does."""
   import xml.etree.ElementTree as et
   if fmt == "ttml":
@@ -124,23 +124,23 @@ def read(fmt: str, data: bytes, reader_cfg=None):
       # the XML layer (python's ElementTree, called by tt.py before the reader) rejected the bytes: whatever it raises
       # (ParseError, or LookupError for an unknown encoding name, ...) is an XML parse error, not a reader failure
       raise et.ParseError("not well-formed XML: " + type(ex).__name__) from ex
-    return r.to_model(tree)
+    return r.to_model(tree, cb)
   if fmt == "scc":
     import ttconv.scc.reader as r
     from ttconv.scc.config import SccReaderConfiguration
     cfg = SccReaderConfiguration.parse(reader_cfg) if reader_cfg else None
-    return r.to_model(data.decode("utf-8"), cfg)
+    return r.to_model(data.decode("utf-8"), cfg, cb)
   if fmt == "stl":
     import ttconv.stl.reader as r
     from ttconv.stl.config import STLReaderConfiguration
     cfg = STLReaderConfiguration.parse(reader_cfg) if reader_cfg else None
-    return r.to_model(io.BytesIO(data), cfg)
+    return r.to_model(io.BytesIO(data), cfg, cb)
   if fmt == "srt":
     import ttconv.srt.reader as r
-    return r.to_model(io.TextIOWrapper(io.BytesIO(data), encoding="utf-8"))
+    return r.to_model(io.TextIOWrapper(io.BytesIO(data), encoding="utf-8"), None, cb)
   if fmt == "vtt":
     import ttconv.vtt.reader as r
-    return r.to_model(io.TextIOWrapper(io.BytesIO(data), encoding="utf-8"))
+    return r.to_model(io.TextIOWrapper(io.BytesIO(data), encoding="utf-8"), None, cb)
   raise AssertionError(fmt)
 
 
@@ -153,13 +153,25 @@ def run_pipeline(fmt: str, data: bytes, reader_cfg=None, timeout=20, stages=True
   log.setLevel(logging.ERROR)
   counter = _Count()
   log.addHandler(counter)
-  out = {"read": "", "fatal": 0, "stages": [], "where": ""}
+  out = {"read": "", "fatal": 0, "stages": [], "where": "", "progress": []}
+
+  def collector(who):
+    vals = []
+    out["progress"].append({"who": who, "v": vals})
+
+    def cb(x):
+      try:
+        vals.append(int(round(float(x) * 1000)))
+      except Exception:  # pylint: disable=broad-except
+        vals.append(-1)
+    return cb
+
   signal.signal(signal.SIGALRM, _alarm)
   signal.alarm(timeout)
   doc = None
   try:
     try:
-      doc = read(fmt, data, reader_cfg)
+      doc = read(fmt, data, reader_cfg, collector("reader_" + fmt))
       out["read"] = "Doc" if doc is not None else "NoneAfterFatal"
       out["fatal"] = 1 if counter.n > 0 else 0
     except BaseException as ex:  # pylint: disable=broad-except
@@ -219,11 +231,11 @@ def run_pipeline(fmt: str, data: bytes, reader_cfg=None, timeout=20, stages=True
     stage("sequence", snaps_limited)
     small = len(sig) <= 400
     if small:
-      stage("srt", lambda: srtw.from_model(doc))
+      stage("srt", lambda: srtw.from_model(doc, None, collector("srt_writer")))
       stage("srt_plain", lambda: srtw.from_model(doc, SRTWriterConfiguration.parse({"text_formatting": False})))
-      stage("vtt", lambda: vttw.from_model(doc))
+      stage("vtt", lambda: vttw.from_model(doc, None, collector("vtt_writer")))
       stage("vtt_cfg", lambda: vttw.from_model(doc, VTTWriterConfiguration.parse({"line_position": True, "text_align": True, "cue_id": False})))
-    stage("imsc", lambda: et.tostring(imscw.from_model(doc).getroot()))
+    stage("imsc", lambda: et.tostring(imscw.from_model(doc, None, collector("imsc_writer")).getroot()))
     stage("imsc_clock", lambda: et.tostring(imscw.from_model(doc, IMSCWriterConfiguration.parse({"time_format": "clock_time"})).getroot()))
     stage("imsc_frames", lambda: et.tostring(imscw.from_model(doc, IMSCWriterConfiguration.parse({"time_format": "frames", "fps": "25/1"})).getroot()))
     stage("imsc_clockframes", lambda: et.tostring(imscw.from_model(doc, IMSCWriterConfiguration.parse({"time_format": "clock_time_with_frames", "fps": "30/1"})).getroot()))
